@@ -27,7 +27,7 @@ def _dep(name, path, extra=""):
 
 
 def deps_for(hb):
-    if hb == "std":
+    if hb in ("std", "std-native"):
         chacha = blake = jh = ""
     elif hb == "portable":
         chacha = ', features = ["no_simd"]'
@@ -51,6 +51,9 @@ def deps_for(hb):
 
 HOST_BUILDS = {
     "std": "",
+    # run-time dispatch as shipped, but compiled for exactly this CPU: every cfg(target_feature = ..) path the machine
+    # supports (AVX2, AVX-512 ...) is compiled in, as with RUSTFLAGS=-C target-cpu=native
+    "std-native": "-C target-cpu=native",
     "portable": "--cfg hostbuild_fixed --cfg hostbuild_portable",
     "nostd-sse2": "--cfg hostbuild_fixed",
     "nostd-ssse3": "--cfg hostbuild_fixed -C target-feature=+ssse3",
@@ -262,8 +265,8 @@ class Cross:
 PROPS = {}
 
 
-def prop(pid, level, rule, assumptions, legs, real_vs_stub, cross=None, streams=None, selftest=False, miri=False, miri_mem=False, be_host=None):
-    PROPS[pid] = dict(level=level, rule=rule, assumptions=assumptions, legs=legs, real_vs_stub=real_vs_stub, cross=cross or [], streams=streams or [], selftest=selftest, miri=miri, miri_mem=miri_mem, be_host=be_host)
+def prop(pid, level, rule, assumptions, legs, real_vs_stub, cross=None, streams=None, selftest=False, miri=False, miri_mem=False, be_host=None, huge=None):
+    PROPS[pid] = dict(level=level, rule=rule, assumptions=assumptions, legs=legs, real_vs_stub=real_vs_stub, cross=cross or [], streams=streams or [], selftest=selftest, miri=miri, miri_mem=miri_mem, be_host=be_host, huge=huge or [])
 
 
 REAL = "real code: every algorithm, buffer and dispatch path of the crates under /repo, built from the working tree"
@@ -288,8 +291,18 @@ prop(
         Leg("std", "checked", "chacha_stream", "C02", 1000000, 20000000),
         Leg("std", "dev", "chacha_stream", "C02", 50000, 1000000),
         Leg("portable", "checked", "chacha_stream", "C02", 20000, 2000000, tiers=("thorough",)),
+        Leg("std-native", "release", "chacha_stream", "C02", 200000, 2000000),
+        Leg("nostd-avx2", "release", "chacha_stream", "C02", 100000, 2000000),
     ],
     [REAL, STUB],
+    be_host={"quick": (1, "cipher"), "thorough": (6, "cipher")},
+    huge=[
+        dict(what="cipher:XChaCha20", len=4 * (1 << 30) + 3, pre=27),
+        dict(what="cipher:ChaCha20", len=2 * (1 << 30) + 5),
+        dict(what="cipher:ChaCha8", len=3 * (1 << 30) + 77, pre=70, tiers=("thorough",)),
+        dict(what="cipher:ChaCha12", len=4 * (1 << 30), pre=10, tiers=("thorough",)),
+        dict(what="cipher:Ietf", len=4 * (1 << 30) + 1, pre=63, tiers=("thorough",)),
+    ],
 )
 
 prop(
@@ -309,12 +322,26 @@ prop(
         Leg("std", "checked", "chacha_stream", "C11", 1000000, 20000000),
         Leg("std", "dev", "chacha_stream", "C11", 50000, 1000000),
         Leg("portable", "checked", "chacha_stream", "C11", 20000, 2000000, tiers=("thorough",)),
+        Leg("std-native", "release", "chacha_stream", "C11", 200000, 2000000),
+        Leg("nostd-avx2", "release", "chacha_stream", "C11", 100000, 2000000),
     ],
     [REAL, STUB],
+    be_host={"quick": (1, "cipher"), "thorough": (6, "cipher")},
+    # requests longer than everything that is left (up to 2^38 + 1 bytes in ONE slice of untouched zero pages) must be
+    # refused at once and atomically; a watchdog catches an acceptance
+    huge=[
+        dict(what="exhaust:Ietf", len=(1 << 38) + 1, timeout=20),
+        dict(what="exhaust:Ietf", len=(1 << 38) + 1, seek=0, timeout=20),
+        dict(what="exhaust:Ietf", len=(1 << 38), seek=1, timeout=20),
+        dict(what="exhaust:Ietf", len=(1 << 38) - 63, seek=64, timeout=20),
+        dict(what="exhaust:Ietf", len=(1 << 38), pre=10, timeout=20),
+        dict(what="exhaust:Ietf", len=(1 << 38) + (1 << 32), seek=0, pre=0, timeout=20),
+    ],
 )
 
 
-ALL_FIXED = ["portable", "nostd-sse2", "nostd-ssse3", "nostd-sse41", "nostd-avx", "nostd-avx2"]
+ALL_FIXED = ["portable", "nostd-sse2", "nostd-ssse3", "nostd-sse41", "nostd-avx", "nostd-avx2", "std-native"]
+QUICK_FIXED = ["portable", "nostd-sse2", "nostd-avx2", "std-native"]
 
 prop(
     "C14",
@@ -335,7 +362,7 @@ prop(
         Leg("std", "dev", "chacha_block", "C14", 50000, 1000000, max_ops=32),
     ],
     [REAL, STUB],
-    cross=[Cross("chacha_block", "C14", "checked", 40000, 400000, ["portable", "nostd-sse2"], ALL_FIXED, max_ops=32)],
+    cross=[Cross("chacha_block", "C14", "checked", 40000, 400000, QUICK_FIXED, ALL_FIXED, max_ops=32)],
     be_host={"quick": (2, "block,cipher"), "thorough": (12, "block,cipher")},
 )
 
@@ -355,6 +382,7 @@ prop(
         # builds whose target features are fixed at compile time (code under cfg(target_feature = ..) exists only there)
         Leg("nostd-sse41", "release", "chacha_block", "C15", 100000, 1000000, max_ops=32),
         Leg("nostd-avx2", "release", "chacha_block", "C15", 100000, 1000000, max_ops=32),
+        Leg("std-native", "release", "chacha_block", "C15", 100000, 1000000, max_ops=32),
         Leg("nostd-sse2", "release", "chacha_block", "C15", 0, 1000000, max_ops=32),
         Leg("nostd-ssse3", "release", "chacha_block", "C15", 0, 1000000, max_ops=32),
         Leg("nostd-avx", "release", "chacha_block", "C15", 0, 1000000, max_ops=32),
@@ -379,8 +407,24 @@ prop(
         Leg("std", "checked", "hash_stream", "C08", 600000, 12000000, max_ops=30),
         Leg("std", "dev", "hash_stream", "C08", 8000, 150000, max_ops=30),
         Leg("portable", "checked", "hash_stream", "C08", 20000, 1000000, max_ops=30, tiers=("thorough",)),
+        Leg("std-native", "release", "hash_stream", "C08", 100000, 1000000, max_ops=30),
     ],
     [REAL, STUB],
+    # the whole message in ONE update call (and through Digest::digest) against the same bytes in 1 MiB-3 pieces:
+    # a single call longer than 2^32 bytes / 2^32 bits must be chunking-invariant too
+    streams=[
+        ("Groestl256", 4096 * (1 << 20), ("quick", "thorough"), False, dict(oneshot=True)),
+        ("Blake256", 512 * (1 << 20), ("quick", "thorough"), False, dict(oneshot=True)),
+        ("Groestl512", 4096 * (1 << 20), ("thorough",), False, dict(oneshot=True)),
+        ("Groestl224", 4096 * (1 << 20), ("thorough",), False, dict(oneshot=True)),
+        ("Groestl384", 4096 * (1 << 20), ("thorough",), False, dict(oneshot=True)),
+        ("Blake512", 4096 * (1 << 20), ("thorough",), False, dict(oneshot=True)),
+        ("Jh256", 4096 * (1 << 20), ("thorough",), False, dict(oneshot=True)),
+        ("Skein256_32", 4096 * (1 << 20), ("thorough",), False, dict(oneshot=True)),
+        ("Skein512_64", 4096 * (1 << 20), ("thorough",), False, dict(oneshot=True)),
+        ("Skein1024_128", 4096 * (1 << 20), ("thorough",), False, dict(oneshot=True)),
+        ("Blake224", 512 * (1 << 20), ("thorough",), False, dict(oneshot=True, profile="checked")),
+    ],
 )
 
 prop(
@@ -410,10 +454,10 @@ prop(
     ],
     [REAL, STUB],
     cross=[
-        Cross("hash_stream", "C03", "release", 20000, 200000, ["portable", "nostd-sse2"], ALL_FIXED, max_ops=30),
-        Cross("chacha_stream", "C02", "release", 20000, 200000, ["portable", "nostd-sse2"], ALL_FIXED),
-        Cross("chacha_block", "C14", "release", 20000, 200000, ["portable", "nostd-sse2"], ALL_FIXED, max_ops=32),
-        Cross("vecops", "C03", "release", 100000, 2000000, ["portable"], ["portable", "nostd-sse2", "nostd-avx2"], max_ops=40),
+        Cross("hash_stream", "C03", "release", 20000, 200000, QUICK_FIXED, ALL_FIXED, max_ops=30),
+        Cross("chacha_stream", "C02", "release", 20000, 200000, QUICK_FIXED, ALL_FIXED),
+        Cross("chacha_block", "C14", "release", 20000, 200000, QUICK_FIXED, ALL_FIXED, max_ops=32),
+        Cross("vecops", "C03", "release", 100000, 2000000, ["portable", "std-native"], ["portable", "nostd-sse2", "nostd-avx2", "std-native"], max_ops=40),
     ],
     be_host={"quick": (1, "cipher,jh1"), "thorough": (2, "block,cipher,hash")},
 )
@@ -442,9 +486,25 @@ prop(
         Leg("std", "checked", "mem", "C16", 20000, 600000, max_ops=40, sharded=True),
         Leg("portable", "release", "mem", "C16enum", -1, -1, max_ops=192, sharded=True),
         Leg("portable", "release", "mem", "C16", 0, 300000, max_ops=40, sharded=True),
+        Leg("std-native", "release", "mem", "C16enum", -1, -1, max_ops=192, sharded=True),
     ],
     [REAL, STUB + "; second pass: Miri interprets the real crates (portable SIMD backend, Groestl on AES-NI shims) with every slice an exact-size allocation"],
     miri_mem=True,
+    huge=[
+        dict(what="hash:Groestl256", len=2 * (1 << 30) + 81),
+        dict(what="cipher:ChaCha20", len=4 * (1 << 30) + 3, pre=27),
+        dict(what="cipher:XChaCha12", len=2 * (1 << 30) + 9, pre=0),
+        dict(what="hash:Groestl512", len=2 * (1 << 30) + 200, pre=5, tiers=("thorough",)),
+        dict(what="hash:Groestl224", len=4 * (1 << 30) + 64, tiers=("thorough",)),
+        dict(what="hash:Blake256", len=2 * (1 << 30) + 81, pre=1, tiers=("thorough",)),
+        dict(what="hash:Blake512", len=4 * (1 << 30) + 129, tiers=("thorough",)),
+        dict(what="hash:Jh256", len=2 * (1 << 30) + 65, pre=3, tiers=("thorough",)),
+        dict(what="hash:Skein512_64", len=4 * (1 << 30) + 64, tiers=("thorough",)),
+        dict(what="hash:Skein256_33", len=2 * (1 << 30) + 31, pre=7, tiers=("thorough",)),
+        dict(what="cipher:Ietf", len=4 * (1 << 30), pre=10, tiers=("thorough",)),
+        dict(what="cipher:XChaCha8", len=4 * (1 << 30) + 70, pre=63, tiers=("thorough",)),
+        dict(what="cipher:ChaCha8", len=2 * (1 << 30) + 1, pre=1, tiers=("thorough",)),
+    ],
 )
 
 
@@ -472,6 +532,10 @@ prop(
         Leg("std", "checked", "counters", "C17", 150000, 2000000, max_ops=16),
         Leg("std", "dev", "counters", "C17", 6000, 100000, max_ops=16),
         Leg("portable", "checked", "counters", "C17", 0, 200000, max_ops=16),
+        Leg("std-native", "release", "counters", "C17", 50000, 500000, max_ops=16),
+        # the hash-history scenario also jumps counters and feeds views of a growing buffer (non-idempotent as_ref):
+        # its invariant H2 "the digest is that of ONE of the views handed out" concerns the amount counted
+        Leg("std", "checked", "hash_stream", "C08", 150000, 1500000, max_ops=30),
     ],
     [REAL, STUB],
     streams=[
@@ -525,6 +589,7 @@ prop(
         Leg("std", "release", "interleave", "C18", 20000, 600000, max_ops=60, sharded=True),
         Leg("std", "checked", "interleave", "C18", 10000, 300000, max_ops=60, sharded=True),
         Leg("portable", "checked", "interleave", "C18", 0, 150000, max_ops=60, sharded=True),
+        Leg("std-native", "release", "interleave", "C18", 0, 150000, max_ops=60, sharded=True),
     ],
     [REAL, STUB + "; Miri interprets the real crates (portable SIMD backend)"],
     miri=True,
@@ -647,6 +712,12 @@ def run_property(pid, tier):
             run_cross(pid, cross, tier, sd, replay_dir, absorb, violations, known)
         except HarnessError as e:
             harness_error = str(e)
+    huge_results = []
+    if spec.get("huge") and not harness_error:
+        try:
+            run_huge(pid, spec["huge"], tier, sd, replay_dir, huge_results, violations, known)
+        except HarnessError as e:
+            harness_error = str(e)
     stream_results = []
     if spec.get("streams") and not harness_error:
         try:
@@ -677,7 +748,13 @@ def run_property(pid, tier):
     total_runs, total_ops = acc["total_runs"], acc["total_ops"]
     wall = time.time() - t0
     extra = None
+    if huge_results:
+        extra = dict(huge_single_calls=huge_results)
+        total_runs += len(huge_results)
     if be_results:
+        extra = dict(extra or {}, big_endian_host=be_results)
+        total_runs += 1
+    if False:
         extra = dict(big_endian_host=be_results)
         total_runs += 1
     if stream_results:
@@ -983,6 +1060,63 @@ def run_miri_layer(pid, tier, sd, replay_dir, results, violations, known, others
     return total, time.time() - t0
 
 
+def run_huge(pid, entries, tier, sd, replay_dir, results, violations, known):
+    """Single calls with slices of 2 GiB / 4 GiB / more than the whole keystream: lengths no sweep can afford.
+    Each runs in its own process (a fault kills only that process; a watchdog catches a call that should have been refused at once)."""
+    binary = build("std", "release")
+    procs = []
+    for e in entries:
+        if tier not in e.get("tiers", ("quick", "thorough")):
+            continue
+        a = [binary, "huge", "--what", e["what"], "--len", str(e["len"]), "--pre", str(e.get("pre", 0))]
+        if "seek" in e:
+            a += ["--seek", str(e["seek"])]
+        procs.append((e, a, subprocess.Popen(a, stdout=subprocess.PIPE, stderr=subprocess.PIPE, text=True), time.time()))
+    for e, a, p, t0 in procs:
+        timeout = e.get("timeout", 600)
+        try:
+            so, se = p.communicate(timeout=max(1, timeout - (time.time() - t0)))
+            rc = p.returncode
+        except subprocess.TimeoutExpired:
+            p.kill()
+            so, se = p.communicate()
+            rc = "timeout"
+        label = "%s len=%d pre=%d%s" % (e["what"], e["len"], e.get("pre", 0), (" seek=%d" % e["seek"]) if "seek" in e else "")
+        out = None
+        try:
+            out = json.loads(so.strip().splitlines()[-1])
+        except (ValueError, IndexError):
+            pass
+        ok = rc == 0
+        results.append(dict(call=label, ok=ok, rc=str(rc), wall_ms=(out or {}).get("wall_ms")))
+        log("[%s] huge call %s: %s" % (pid, label, "ok" if ok else "FAILED rc=%s" % rc))
+        if ok:
+            continue
+        if rc == "timeout":
+            what = "not refused at once (watchdog)" if e["what"].startswith("exhaust") else "does not finish"
+        elif rc == 1:
+            what = "result differs from the same bytes in pieces" if not e["what"].startswith("exhaust") else "not refused / not atomic"
+        elif rc == 99 or (isinstance(rc, int) and rc < 0):
+            what = "process killed by a memory fault"
+        elif rc == 101:
+            what = "panic"
+        else:
+            log(se[-1500:])
+            raise HarnessError("huge call %s failed rc=%s" % (label, rc))
+        sig = "huge single call:%s:%s" % (e["what"], what)
+        f = dict(kind="huge", argv=a[1:], timeout=timeout, ops=[label], minimised_from=1,
+                 violation=dict(properties=[pid], invariant="G1", signature=sig, at_op=0, detail="%s: %s %s" % (label, what, (out or {}).get("detail", "") or se[-300:])))
+        import re as _re
+        path = os.path.join(replay_dir, "%s-huge-%s.json" % (pid, _re.sub(r"[^A-Za-z0-9_]+", "_", label)))
+        json.dump(f, open(path, "w"))
+        f["replay"] = path
+        kf = open_finding_for(pid, sig)
+        if kf:
+            known.append((kf, f))
+        else:
+            violations.append(f)
+
+
 def run_streams(pid, streams, tier, sd, replay_dir, results, violations, known):
     """Cross counter boundaries for real (no hook): implementation and reference in lock-step, all streams in parallel."""
     procs = []
@@ -1004,7 +1138,7 @@ def run_streams(pid, streams, tier, sd, replay_dir, results, violations, known):
         try:
             out = json.loads(so.strip().splitlines()[-1])
         except (ValueError, IndexError):
-            if p.returncode == 101:  # the implementation panicked while streaming (e.g. an overflow check)
+            if p.returncode == 101 or p.returncode == 99 or p.returncode < 0:  # panic (e.g. an overflow check) or a memory fault while streaming
                 out = dict(absorbed=0, digest_mismatches=0, counter_mismatches=0, wall_ms=0, checks=[], panicked=True)
                 p.returncode = 1
             else:
@@ -1209,6 +1343,23 @@ def replay(pid, path):
             print("  (batch prefix of %d runs) %s" % (b["runs"], same[0]["violation"]["detail"]))
             return 1
         print("OK replay: the batch prefix passes on this tree")
+        return 0
+    if j.get("kind") == "huge":
+        a = [build("std", "release")] + j["argv"]
+        try:
+            p = subprocess.run(a, stdout=subprocess.PIPE, stderr=subprocess.PIPE, text=True, timeout=j.get("timeout", 600))
+            rc = p.returncode
+        except subprocess.TimeoutExpired:
+            rc = "timeout"
+        if rc != 0:
+            kf = open_finding_for(pid, j["violation"]["signature"])
+            if kf:
+                print("KNOWN-FINDING: property=%s %s" % (pid, kf.get("what")))
+                return 0
+            print("VIOLATION property=%s replay=%s" % (pid, path))
+            print("  huge call %s: rc=%s" % (j["ops"], rc))
+            return 1
+        print("OK replay: the huge call behaves on this tree")
         return 0
     if j.get("kind") == "miri_be":
         res, viol, kn = [], [], []
